@@ -261,10 +261,10 @@ def coq_eval_shards(ctx, name, header, case_terms, check_expr, shard=400, timeou
         path.write_text(body)
         rc, out = coqc_file(path, timeout)
         if rc != 0:
-            return [None] * len(cs), out
+            return [None] * len(cs), out or f'coqc rc={rc} with no output (timeout after {timeout}s?) on {path.name}'
         bs = parse_bools(out)
         if len(bs) != len(cs):
-            return [None] * len(cs), out
+            return [None] * len(cs), out or f'coqc printed {len(bs)} results for {len(cs)} cases on {path.name}'
         return bs, ''
 
     res = []
